@@ -48,6 +48,8 @@ def model_case(scen, obs=None):
             continue
         if k < len(recs) and recs[k].get("skipped"):
             continue  # cancel/await aimed at a submission that was rejected: nothing happened
+        if k < len(recs) and recs[k].get("gave_up"):
+            continue  # an await the user script abandoned after a time limit: no synchronisation took place
         script.append(c)
     return {"cfg": cfg, "script": script}
 
@@ -91,6 +93,8 @@ def plain_sum(call):
     def s(d):
         if "v" in d:
             return d["v"]
+        if "a" in d:
+            return sum(d["a"])
         if "l" in d:
             return sum(s(x) for x in d["l"])
         if "t" in d:
